@@ -270,8 +270,9 @@ def generic_replay(build):
             diffs = judge0(out, base)
             if diffs:
                 return False, 'native run differs from the prediction: ' + '; '.join(diffs[:6])
-            return True, 'native run reproduces all %d predicted observables (status, balances, reserves) of the violating execution' % len(obs)
+            return True, 'native run reproduces all %d predicted observables (status, balances, reserves, positions, farms, weights)' % len(obs)
         return sc, judge
+    rb.generic = True          # compares predicted observables with native ones (usable for fidelity runs on the unchanged tree)
     return rb
 
 
